@@ -543,6 +543,8 @@ def fixed_shapes():
         U8, U32, I('i64'), I('f32'), U128, I('le::U16'), I('be::U32'), I('be::F64'), BOOL, UNIT,
         CL('u8', 3), CL('u16', 5, 2), CL('u32', 2, 1),
         A(U16, 3), A(BOOL, 4), A(A(U8, 2), 3), A(U32, 0),
+        # arrays whose element size differs from its alignment, with constrained bytes in later elements
+        A(A(BOOL, 2), 3), A(sb, 2), S(U8, A(S(U16, BOOL), 3)), A(S(BOOL, BOOL, BOOL), 2), A(E('u8', 0, [], [U32]), 2),
         # sized structs / enums (tests/src/sized_struct, sized_enum)
         S(U8, U16, U32, A(U64, 4)), S(U8, U64, U8), S(), S(U8, style='t'), S(BOOL, U16, BOOL, style='t'),
         E('u8', 0, [], [I('i32')], [U8, U16], [U32]),
